@@ -203,7 +203,10 @@ def run (v : Version) (op : Op) (rs : List Nat) : Out :=
     read1 [] .interruptStatus rs fun x =>
       if x != 0 then ⟨[wr .interruptAck x], .val (x % 4)⟩   -- `from_bits_truncate`: two defined bits
       else ⟨[], .val 0⟩
-  | .readGeneration => read1 [] .configGeneration rs fun x => ⟨[], .val x⟩
+  | .readGeneration =>
+    match v with
+    | .legacy => ⟨[], .val 0⟩   -- the legacy interface has no ConfigGeneration register: constant 0, no access
+    | .modern => read1 [] .configGeneration rs fun x => ⟨[], .val x⟩
   | .vendorId => read1 [] .vendorId rs fun x => ⟨[], .val x⟩
   | .drop => ⟨[wr .status 0], .unit⟩
 
